@@ -70,7 +70,7 @@ def ident(v):
 
 
 def make_model(x0: float = X0, p: dict | None = None, r: Rendering = SMALL, ramp: bool = False, ia: bool = False,
-               mirror: bool = False, derived: bool = False):
+               mirror: bool = False, derived: bool = False, bystander: bool = False):
     """x' = kin - k*x [+ r*time when ramp].  ia: the initial value of x is assignment-defined (X0 under the
     parameter values at construction, proportional to kin)."""
     from mxlpy import Model
@@ -106,6 +106,14 @@ def make_model(x0: float = X0, p: dict | None = None, r: Rendering = SMALL, ramp
         m.add_reaction("vout_y", outflux, args=[kname, "y"], stoichiometry={"y": -1.0})
         if ramp:
             m.add_reaction("vramp_y", rampflux, args=["time", "r"], stoichiometry={"y": 1.0})
+    if bystander:
+        # a third kind of variable: same equation, same start, NEVER named in an override -- an override names x
+        # only, so z must go on from the state it had reached (Simulator.tla: HistOf(s, FALSE))
+        m.add_variables({"z": InitialAssignment(fn=x0_of_kin, args=["kin"]) if ia else x0})
+        m.add_reaction("vin_z", influx, args=vin_args, stoichiometry={"z": sx})
+        m.add_reaction("vout_z", outflux, args=[kname, "z"], stoichiometry={"z": -1.0})
+        if ramp:
+            m.add_reaction("vramp_z", rampflux, args=["time", "r"], stoichiometry={"z": 1.0})
     return m
 
 
@@ -171,7 +179,8 @@ class Run:
         self.cand_kin = {P0["kin"]}     # kin values in force while the simulator had not run yet (ia start state)
         self.mirror = mirror
         self.derived = derived
-        self.model = make_model(r=r, ramp=ramp, ia=ia, mirror=mirror, derived=derived)
+        self.bystander = not mirror      # histories without the mirror variable carry the never-overridden z
+        self.model = make_model(r=r, ramp=ramp, ia=ia, mirror=mirror, derived=derived, bystander=self.bystander)
         self.sim = Simulator(self.model, use_jacobian=use_jacobian)
         self.bases = {0: 0.0}
         self.touched = False     # the history has read the computed views of a result
@@ -304,6 +313,8 @@ class Run:
                         "p": {kk: float(v) for kk, v in p.items()}})
             if self.mirror:
                 out[-1]["y"] = [float(v) for v in df["y"].to_numpy()]
+            if getattr(self, "bystander", False):
+                out[-1]["z"] = [float(v) for v in df["z"].to_numpy()]
         return out
 
     def views(self):
@@ -371,64 +382,74 @@ def compare(run: Run, pst: dict, obs, stats: dict | None = None) -> dict | None:
             if not abs(xv - yv) <= tol:
                 return {"what": "values", "segment": i, "time": tv, "expected": f"y = x = {xv}", "observed": yv,
                         "mirror_variable": True}
-    # values: walk the history
-    hist = pst["hist"]
-    x = None
-    hi = 0
-    for i, (g, o) in enumerate(zip(segs, obs)):
-        while hi < g["sidx"]:
-            rec = hist[hi]
-            if rec["k"] == "init":
-                x = X0
-                if getattr(run, "ia", False) and i == 0 and start_row[0] and g["times"][0] == g["t0"] \
-                        and hi == g["sidx"] - 1:
-                    # assignment-defined initial value and parameters updated before the first run: the statement
-                    # does not say whether a simulator that has not run yet starts from the model's initial
-                    # conditions as they were at construction or as they are now -- either is accepted (and counted)
-                    cands = {X0} | {X0 * u / P0["kin"] for u in run.cand_kin | {g["p"]["kin"]}}
-                    hit = [c for c in sorted(cands) if close(o["x"][0], c, 1e-9, 1e-12)]
-                    if not hit:
-                        return {"what": "start-state", "expected_one_of": sorted(cands), "observed": o["x"][0]}
-                    x = hit[0] if X0 not in hit else X0
-                    if stats is not None and len(cands) > 1:
-                        key = "start_state_as_at_construction" if x == X0 else "start_state_follows_current_parameters"
-                        stats[key] = stats.get(key, 0) + 1
-            elif rec["k"] == "free":
-                # bound to the first row of the first segment when that row is the starting point
-                own = hist[g["sidx"]]["k"] == "flow" and g["times"][0] == g["t0"]
-                x = o["x"][0] if (i == 0 and start_row[0] and own) else None
-            elif rec["k"] == "ov":
-                x = float(rec["v"])
-            else:  # pragma: no cover
-                raise AssertionError(f"history record {rec} outside a segment")
+    # values: walk the history -- for x (named in every override) and for the bystander z (named in none: its
+    # history is the same one without the override records)
+    def walk(col: str, named: bool) -> dict | None:
+        hist = pst["hist"]
+        x = None
+        hi = 0
+        for i, (g, o) in enumerate(zip(segs, obs)):
+            while hi < g["sidx"]:
+                rec = hist[hi]
+                if rec["k"] == "init":
+                    x = X0
+                    if getattr(run, "ia", False) and i == 0 and start_row[0] and g["times"][0] == g["t0"] \
+                            and (hi == g["sidx"] - 1 or not named):
+                        # assignment-defined initial value and parameters updated before the first run: the statement
+                        # does not say whether a simulator that has not run yet starts from the model's initial
+                        # conditions as they were at construction or as they are now -- either is accepted (and counted)
+                        cands = {X0} | {X0 * u / P0["kin"] for u in run.cand_kin | {g["p"]["kin"]}}
+                        hit = [c for c in sorted(cands) if close(o[col][0], c, 1e-9, 1e-12)]
+                        if not hit:
+                            return {"what": "start-state", "expected_one_of": sorted(cands), "observed": o[col][0]}
+                        x = hit[0] if X0 not in hit else X0
+                        if stats is not None and len(cands) > 1:
+                            key = "start_state_as_at_construction" if x == X0 else "start_state_follows_current_parameters"
+                            stats[key] = stats.get(key, 0) + 1
+                elif rec["k"] == "free":
+                    # bound to the first row of the first segment when that row is the starting point
+                    own = hist[g["sidx"]]["k"] == "flow" and g["times"][0] == g["t0"]
+                    x = o[col][0] if (i == 0 and start_row[0] and own) else None
+                elif rec["k"] == "ov":
+                    if named:
+                        x = float(rec["v"])
+                else:  # pragma: no cover
+                    raise AssertionError(f"history record {rec} outside a segment")
+                hi += 1
+            frec = hist[hi]
             hi += 1
-        frec = hist[hi]
-        hi += 1
-        if x is None:
-            continue
-        kin, k = g["p"]["kin"] * run.r.ps, g["p"]["kk"] * run.r.ps
-        t0 = run.t(g["t0"])
-        ts = o["t"]
-        loose = frec["k"] == "ss"
-        for tv, xv in zip(ts, o["x"]):
-            e = flow_t(kin, k, getattr(run, "ramp", 0.0), t0, tv, x)
-            err = abs(e - xv)
-            tol = ABS + (SS_REL if loose else REL) * max(abs(e), abs(xv))
-            if max(abs(e), abs(xv)) < FRAGILE_BELOW:
-                # fragile: the relative budget is below the integrator's own absolute tolerance (1e-8)
-                tol = FRAGILE_ABS
+            if x is None:
+                continue
+            kin, k = g["p"]["kin"] * run.r.ps, g["p"]["kk"] * run.r.ps
+            t0 = run.t(g["t0"])
+            ts = o["t"]
+            loose = frec["k"] == "ss"
+            for tv, xv in zip(ts, o[col]):
+                e = flow_t(kin, k, getattr(run, "ramp", 0.0), t0, tv, x)
+                err = abs(e - xv)
+                tol = ABS + (SS_REL if loose else REL) * max(abs(e), abs(xv))
+                if max(abs(e), abs(xv)) < FRAGILE_BELOW:
+                    # fragile: the relative budget is below the integrator's own absolute tolerance (1e-8)
+                    tol = FRAGILE_ABS
+                    if stats is not None:
+                        stats["fragile"] = stats.get("fragile", 0) + 1
                 if stats is not None:
-                    stats["fragile"] = stats.get("fragile", 0) + 1
-            if stats is not None:
-                stats["n"] = stats.get("n", 0) + 1
-                stats["worst"] = max(stats.get("worst", 0.0), err / tol)
-            if not (err <= tol):
-                return {"what": "values", "segment": i, "time": tv, "expected": e, "observed": xv,
-                        "start_state": x, "start_time": t0, "parameters": {"kin": kin, "k": k},
-                        "steady_state_point": loose}
-        # the state reached: closed form, except after a steady-state point (its accuracy is not ours to judge)
-        x = o["x"][-1] if loose else flow_t(kin, k, getattr(run, "ramp", 0.0), t0, ts[-1], x)
-    return None
+                    stats["n"] = stats.get("n", 0) + 1
+                    stats["worst"] = max(stats.get("worst", 0.0), err / tol)
+                if not (err <= tol):
+                    return {"what": "values", "segment": i, "time": tv, "expected": e, "observed": xv,
+                            "variable": col, "start_state": x, "start_time": t0, "parameters": {"kin": kin, "k": k},
+                            "steady_state_point": loose}
+            # the state reached: closed form, except after a steady-state point (its accuracy is not ours to judge)
+            x = o[col][-1] if loose else flow_t(kin, k, getattr(run, "ramp", 0.0), t0, ts[-1], x)
+        return None
+
+    bad = walk("x", True)
+    if bad is None and getattr(run, "bystander", False) and all("z" in o for o in obs):
+        bad = walk("z", False)
+        if bad is not None:
+            bad["bystander_variable"] = True
+    return bad
 
 
 def compare_views(run: Run, pst: dict, obs) -> dict | None:
